@@ -17,8 +17,25 @@ def select(max_per_fn=10, max_cost=2.0, modules=None, inplace_ok=True):
                 continue      # zero-length axes in align-like templates: open known finding C06.empty-axis of the borrowed property
             byfn.setdefault(t['fn'], []).append(t)
         for fn, ts in sorted(byfn.items()):
-            step = max(1, len(ts) // max_per_fn)
-            for t in ts[::step][:max_per_fn]:
+            # one (cheapest) template per combination of option-like parameters (bool / None / str values), so that
+            # every option of every operation is exercised; then thin out evenly to max_per_fn
+            buckets = {}
+            for t in ts:
+                key = tuple(sorted((k, str(v)) for k, v in t['params'].items() if v is None or isinstance(v, (bool, str))))
+                cur = buckets.get(key)
+                target = max_cost / 2.0        # the richest template that is still cheap
+                score = lambda x: (x.get('cost', 1.0) > target, abs(x.get('cost', 1.0) - target))
+                if cur is None or score(t) < score(cur):
+                    buckets[key] = t
+            picked = [buckets[k] for k in sorted(buckets)]
+            step = max(1, -(-len(picked) // max_per_fn))
+            chosen = picked[::step][:max_per_fn]
+            names = set(t['name'] for t in chosen)
+            rest = [t for t in ts if t['name'] not in names]
+            step2 = max(1, len(rest) // max(1, max_per_fn - len(chosen))) if len(chosen) < max_per_fn else 0
+            if step2:
+                chosen += rest[::step2][:max_per_fn - len(chosen)]
+            for t in chosen:
                 out.append({'mod': m, 'fn': fn, 'params': t['params'], 'name': t['name'], 'cost': t.get('cost', 1.0)})
     return out
 
